@@ -1205,11 +1205,12 @@ class ComplexGammatoneFilterBank(LinearFilterBank):
                 return v
 
             right = (n - 1 + np.sqrt((n - 1) / 2)) / alpha
-            h_0 = np.abs(self._h(right, idx))
+            # _h is shifted by offset; the search is over unshifted time
+            h_0 = np.abs(self._h(right + offset, idx))
             while h_0 > eps:
                 d_0 = _d(right)
                 right -= h_0 / d_0
-                h_0 = np.abs(self._h(right, idx))
+                h_0 = np.abs(self._h(right + offset, idx))
         return (int(np.floor(offset)), int(np.ceil(right) + offset))
 
 
